@@ -939,9 +939,9 @@ func (ag *aggrGroup) flush(notify func(...*alert.Alert) bool) {
 
 	ag.logger.Debug("flushing", "numAlerts", len(alertsSlice), "alerts", alertsSlice)
 
-	verifPoint("flush.begin", ag.GroupKey(), ag.routeID, alertsSlice)
+	verifPoint("flush.begin", ag.GroupKey(), ag.routeID, alertsSlice, ag.ctx)
 	if notify(alertsSlice...) {
-		verifPoint("flush.ok", ag.GroupKey())
+		verifPoint("flush.ok", ag.GroupKey(), ag.ctx)
 		ag.recordResolvedEvents(resolvedSlice)
 
 		// Delete all resolved alerts as we just sent a notification for them,
@@ -967,7 +967,7 @@ func (ag *aggrGroup) flush(notify func(...*alert.Alert) bool) {
 			}
 		}
 	}
-	verifPoint("flush.done", ag.GroupKey())
+	verifPoint("flush.done", ag.GroupKey(), ag.ctx)
 }
 
 func (ag *aggrGroup) recordResolvedEvents(resolved types.AlertSlice) {
